@@ -3,7 +3,7 @@ from __future__ import annotations
 
 import re
 
-from ..wire import ws
+from ..wire import h1, ws
 from ..wire.h2raw import FrameBuilder, client_preface
 
 ID = "C03"
@@ -285,6 +285,16 @@ def check(case, obs, tally):
             continue
         tally.clause("access-once")
         recs = per_path.get(path, [])
+        if len(recs) == 1 and sc.get("type") == "websocket" and proto == "ws-h11":
+            # ... and the record is of what happened: a handshake answered by a complete response (a refusal) is recorded with that
+            # response's status, not as a request that got none
+            try:
+                rs, _ = h1.parse_responses(bytes(obs.outbytes), [("GET", "1.1")], True)
+            except h1.Malformed:
+                rs = []
+            if rs and rs[0].complete and rs[0].status >= 400 and str(recs[0]) != str(rs[0].status):
+                out.append({"clause": "access-once", "sig": "C03.access-status/%s/%s-recorded-as-%s" % (proto, rs[0].status, recs[0]),
+                            "detail": "request %s was answered by a complete %d response; its access record says status %r" % (path, rs[0].status, recs[0])})
         if len(recs) != 1:
             m = re.match(r"/t(\d+)", path or "")
             p = plans.get(int(m.group(1))) if m else None
